@@ -37,6 +37,11 @@ ClassFlags(r) ==
          IF r.st = "err" \/ (r.st = "ok" /\ r.val = RefObs(r.ty, r.base) /\ r.rest = r.tail) THEN {} ELSE {"P13-foreign"}
     [] cls = "suffix" ->
          IF r.st = "ok" /\ r.val = RefObs(r.ty, r.base) /\ r.rest = r.tail THEN {} ELSE {"P14-suffix"}
+    [] cls = "fsuffix" ->
+         \* the same packet without the bytes behind it decodes (by the reference) to b: with them the value is the same and the rest is
+         \* longer by exactly those bytes
+         LET b == DecPacket(r.ty, r.base) IN
+         IF b.ok /\ ~(r.st = "ok" /\ r.val = ObsStruct(r.ty, b.val) /\ r.rest = Len(b.rest) + r.tail) THEN {"P14-suffix"} ELSE {}
     [] cls = "nested" ->
          \* the nested container's value is what it was without the inserted bytes
          LET b == DecPacket(r.ty, r.base) IN
